@@ -14,6 +14,7 @@ package main
 import (
 	"fmt"
 	"os"
+	"os/exec"
 	"sort"
 	"strings"
 	"time"
@@ -33,6 +34,8 @@ func main() {
 		gen(a)
 	case "run":
 		run(a)
+	case "live":
+		liveChild(a)
 	default:
 		fmt.Fprintln(os.Stderr, "unknown mode", a.Mode)
 		os.Exit(2)
@@ -263,26 +266,59 @@ func gen(a vh.Args) {
 		specs = nil
 	}
 	for i, sp := range specs {
-		traces, notes, err := liveRun(a.Seed*1000+uint64(i), sp.tan, sp.exec, a.Tier, 0)
-		if err != nil {
-			// the harness could not drive the implementation: make the run fail loudly
-			fmt.Fprintf(os.Stderr, "c04: live run %d (tan=%v exec=%d) failed: %v\n", i, sp.tan, sp.exec, err)
+		// each live run is a child process: a crash of the library under the fault schedule
+		// must not take the case generation down with it. One retry (other sub-seed); a second
+		// crash fails the generation loudly with the head of the child's output.
+		var lines []string
+		var lastOut string
+		ok := false
+		for attempt := 0; attempt < 2 && !ok; attempt++ {
+			tmp := fmt.Sprintf("%s/live_%d_%d.txt", a.Out, i, attempt)
+			cmd := exec.Command(os.Args[0], "live", "-seed", fmt.Sprint(a.Seed*1000+uint64(i)+uint64(attempt)*500), "-tier", a.Tier, "-cases", tmp, "-out", a.Out)
+			cmd.Env = append(os.Environ(), fmt.Sprintf("C04_LIVE_SPEC=%d,%v,%d", i, sp.tan, sp.exec))
+			outb, err := cmd.CombinedOutput()
+			lastOut = string(outb)
+			if err == nil {
+				lines = vh.ReadLines(tmp)
+				ok = true
+				for _, l := range strings.Split(strings.TrimSpace(lastOut), "\n") {
+					if strings.HasPrefix(l, "c04:") {
+						fmt.Fprintln(os.Stderr, l)
+					}
+				}
+			} else {
+				head := lastOut
+				if len(head) > 6000 {
+					head = head[:6000]
+				}
+				_ = os.WriteFile(fmt.Sprintf("/verif/.work/c04_live_crash_%d.txt", time.Now().Unix()), []byte(head), 0644)
+				fmt.Fprintf(os.Stderr, "c04: live run %d attempt %d crashed: %v\n", i, attempt, err)
+			}
+			_ = os.Remove(tmp)
+		}
+		if !ok {
+			head := lastOut
+			if len(head) > 2500 {
+				head = head[:2500]
+			}
+			fmt.Fprintf(os.Stderr, "c04: live run %d failed twice:\n%s\n", i, head)
 			os.Exit(1)
 		}
-		db := "pebble"
-		if sp.tan {
-			db = "tan"
-		}
-		var nk []string
-		for k, v := range notes {
-			nk = append(nk, fmt.Sprintf("%s=%d", k, v))
-		}
-		sort.Strings(nk)
-		fmt.Fprintf(os.Stderr, "c04: live run %d logdb=%s exec=%d: %s\n", i, db, sp.exec, strings.Join(nk, " "))
-		for h, evs := range traces {
-			w.Printf("L%dh%d live logdb=%s exec=%d | %s\n", i, h+1, db, sp.exec, eventsStr(evs))
+		for _, l := range lines {
+			w.Printf("%s\n", l)
 		}
 	}
+	nU := 150
+	if a.Tier == "thorough" {
+		nU = 2000
+	}
+	pn := genPeerCases(r, w, nU)
+	var pk []string
+	for k, v := range pn {
+		pk = append(pk, fmt.Sprintf("%s=%d", k, v))
+	}
+	sort.Strings(pk)
+	fmt.Fprintf(os.Stderr, "c04: %d single-peer scenarios over the real raft.Peer: %s\n", nU, strings.Join(pk, " "))
 	for i := 0; i < nS; i++ {
 		u := genUpdate(r, 1, 1)
 		commit := u.commit
@@ -298,6 +334,37 @@ func gen(a vh.Args) {
 	for i := 0; i < nT; i++ {
 		w.Printf("T%d trace | %s\n", i, eventsStr(genTrace(r)))
 	}
+}
+
+// one live cluster run in its own process (see gen)
+func liveChild(a vh.Args) {
+	var i int
+	var tan bool
+	var ex uint64
+	if _, err := fmt.Sscanf(os.Getenv("C04_LIVE_SPEC"), "%d,%t,%d", &i, &tan, &ex); err != nil {
+		fmt.Fprintln(os.Stderr, "bad C04_LIVE_SPEC")
+		os.Exit(2)
+	}
+	traces, notes, err := liveRun(a.Seed, tan, ex, a.Tier, 0)
+	if err != nil {
+		fmt.Fprintf(os.Stderr, "c04: live run %d (tan=%v exec=%d) failed: %v\n", i, tan, ex, err)
+		os.Exit(1)
+	}
+	db := "pebble"
+	if tan {
+		db = "tan"
+	}
+	var nk []string
+	for k, v := range notes {
+		nk = append(nk, fmt.Sprintf("%s=%d", k, v))
+	}
+	sort.Strings(nk)
+	fmt.Fprintf(os.Stderr, "c04: live run %d logdb=%s exec=%d: %s\n", i, db, ex, strings.Join(nk, " "))
+	w := vh.Create(a.Cases)
+	for h, evs := range traces {
+		w.Printf("L%dh%d live logdb=%s exec=%d | %s\n", i, h+1, db, ex, eventsStr(evs))
+	}
+	w.Close()
 }
 
 // ---------------------------------------------------------------- run
